@@ -83,3 +83,10 @@ func VerifParsePipe(e string) (initial string, segs [][]string) {
 func VerifEscapeAttrValue(v string) string       { return escapeAttrValue(v) }
 func VerifShouldEscapeTextNode(s string) bool    { return shouldEscapeTextNode(s) }
 func VerifRenderAttrs(a []html.Attribute) string { return renderAttrs(a) }
+
+// VerifParseFor exposes parseFor, the parser of a v-for head: the variables, the collection expression,
+// and whether the head was accepted.
+func VerifParseFor(s string) ([]string, string, bool) {
+	vars, coll, err := parseFor(s)
+	return vars, coll, err == nil
+}
